@@ -384,6 +384,37 @@ def rand_str(rng, alpha, lo, hi):
     return "".join(rng.choice(alpha) for _ in range(rng.randint(lo, hi)))
 
 
+# years at and beyond the edges of datetime64[ns] (1677-09-21 .. 2262-04-11): pandas 3 keeps [s] / [us] columns there
+YEAR_EDGES = [1, 2, 99, 100, 999, 1000, 1582, 1676, 1677, 1678, 1899, 1969, 1970, 2038, 2261, 2262, 2263, 2999, 9998, 9999]
+# row counts at and around sizes where chunked / bulk code paths switch
+ROW_LADDER_QUICK = [64, 255, 256, 257, 1024, 1025, 2048, 3072, 4097, 8193]
+ROW_LADDER_FULL = [60, 63, 64, 65, 127, 128, 129, 255, 256, 257, 1000, 1023, 1024, 1025, 2047, 2048, 2049, 3072, 4095, 4096,
+                   4097, 5120, 8191, 8192, 8193, 20000]
+
+
+def ladder_spec(rng, n_row):
+    """a narrow well-formed table with a given number of rows: numbers with missing values, and one or two more
+    columns of other kinds"""
+    def num(i):
+        r = rng.random()
+        return float("nan") if r < 0.05 or i in (0, n_row - 1, 255, 256, 1023, 1024) and r < 0.5 else \
+            rng.choice([float(rng.randint(-1000, 1000)), rng.random() * 10 ** rng.randint(-3, 6), 1e16, -0.0])
+    cols = [("n", rng.choice(["m", "kg", "-"]), "num", [num(i) for i in range(n_row)])]
+    for nm in rng.sample(["s", "o", "i", "d"], rng.randint(1, 2)):
+        if nm == "s":
+            cols.append(("s", "text", "text", [rng.choice(["a", "", "é", "x y", "-", "nan"]) for _ in range(n_row)]))
+        elif nm == "o":
+            cols.append(("o", "onoff", "onoff", [rng.random() < 0.5 for _ in range(n_row)]))
+        elif nm == "i":
+            cols.append(("i", "-", "int", [rng.randint(-10 ** 6, 10 ** 6) for _ in range(n_row)]))
+        else:
+            base = datetime.datetime(rng.choice([1700, 1999, 2020, 2200]), 1, 1)
+            cols.append(("d", "datetime", "datetime", [base + datetime.timedelta(seconds=37 * i, microseconds=i % 7) for i in range(n_row)]))
+    rng.shuffle(cols)
+    return {"name": "ladder%d" % n_row, "dests": ["all"], "cols": cols, "transposed": False,
+            "index": rng.choice(["default", "default", "permuted", "concat"])}
+
+
 def gen_spec(rng, allow_nat=True):
     """a well-formed table as plain Python data: name, dests, [(colname, unit, kind, values)]"""
     n_col = rng.choice([0, 1, 1, 2, 2, 3, 4, 6])
@@ -424,7 +455,8 @@ def gen_spec(rng, allow_nat=True):
                 if allow_nat and rng.random() < 0.15:
                     vals.append(None)
                 else:
-                    v = datetime.datetime(rng.randint(1900, 2200), rng.randint(1, 12), rng.randint(1, 28),
+                    year = rng.choice(YEAR_EDGES) if rng.random() < 0.3 and not fine else rng.randint(1900, 2200)
+                    v = datetime.datetime(year, rng.randint(1, 12), rng.randint(1, 28),
                                           rng.randint(0, 23), rng.randint(0, 59), rng.randint(0, 59),
                                           rng.choice([0, 0, 1, 999999, 123000, 500]))
                     if fine:       # finer than a microsecond: the column is held as datetime64[ns]
@@ -471,6 +503,8 @@ def build_table(rng, spec):
             res = rng.choice(["us", "us", "ns", "ms" if all(v is None or v.microsecond % 1000 == 0 for v in vals) else "us"])
             if any(getattr(v, "nanosecond", 0) for v in vals):
                 res = "ns"
+            elif res == "ns" and any(v is not None and not (1678 <= v.year <= 2261) for v in vals):
+                res = "us"          # outside the ns range: the column can only be held at a coarser resolution
             data[nm] = pd.Series([pd.NaT if v is None else pd.Timestamp(v) for v in vals], dtype=f"datetime64[{res}]")
         else:
             data[nm] = np.array(vals, dtype="float64")
@@ -726,7 +760,8 @@ def run(tier, seed, model_ok, translator, search=False):
     out.rule = ("(a) to_json_serializable on a zoo of Python / numpy / pandas objects (every dispatch branch, fallbacks, "
                 "failures); (b) well-formed tables of all column kinds (NaN, +-inf, integral and fractional numbers, int64, "
                 "microsecond and nanosecond datetimes, NaT, zero rows / columns, unicode and JSON-hostile text, names and destinations; column names differing only in letter case or only after "
-                "Unicode case folding ('t'/'T', 'Maß'/'MASS'); row labels of the backing "
+                "Unicode case folding ('t'/'T', 'Maß'/'MASS'); datetimes of the years 1..9999; a row-count ladder (64 … 8193 rows "
+                "in every quick run, 60 … 20000 in thorough, always with missing numbers); row labels of the backing "
                 "frame default / permuted / strings / duplicates / concat without ignore_index / DatetimeIndex) "
                 "-> table_to_json_data -> json.dumps(allow_nan=False) -> json.loads -> json_data_to_table; (c) reader-produced "
                 "JsonData (make_table_json_data and parse_blocks(to='jsondata')) of well-formed grids, text and native cells, "
@@ -765,7 +800,7 @@ def run(tier, seed, model_ok, translator, search=False):
             model({"op": "to_json", "v": pv}, case, impl, "to_json_serializable")
 
     # (b) well-formed tables
-    n_b = 12000 if thorough else 1000
+    n_b = 8000 if thorough else 1000
     for i in range(n_b):
         spec = gen_spec(rng)
         case = {"seed": seed, "stream": "b", "index": i, "table": spec_case(spec)}
@@ -804,6 +839,14 @@ def run(tier, seed, model_ok, translator, search=False):
     out.evaluations += 1
     out.count("negative (text ending in NUL): " + ("comes back without the NUL" if back == "a" else "comes back as " + repr(back)))
 
+    # (L) row-count ladder: sizes at and around the powers of two where bulk / chunked code paths switch, always
+    #     with missing numbers; every size of the quick ladder in every run, the full ladder in thorough
+    for n_row in (ROW_LADDER_FULL if thorough else ROW_LADDER_QUICK):
+        spec = ladder_spec(rng, n_row)
+        case = {"seed": seed, "stream": "L", "rows": n_row, "table": spec_case(spec)}
+        out.count("L:rows:%d" % n_row)
+        run_table_case(out, rng, spec, case, model)
+
     # (e) edit then convert: consult the table, reorder its columns in place, then the whole JSON trip; the expected
     #     unit of every column (by name) and the column order come from the generator, never from the table
     n_e = 1500 if thorough else 160
@@ -817,7 +860,7 @@ def run(tier, seed, model_ok, translator, search=False):
         run_table_case(out, rng, spec, case, model, edit=True)
 
     # (c) reader-produced JsonData
-    n_c = 7000 if thorough else 600
+    n_c = 5000 if thorough else 600
     for i in range(n_c):
         native = rng.random() < 0.4
         grid, info = c02.wf_grid(rng, native)
@@ -854,7 +897,7 @@ def run(tier, seed, model_ok, translator, search=False):
 
     # (t) JSON texts: the fixed list of edge cases, random defects in real dumps output, nested random values
     texts = [(x, "listed") for x in BAD_TEXTS]
-    n_t = 4000 if thorough else 500
+    n_t = 2500 if thorough else 500
     for i in range(n_t):
         if i % 3 == 0:
             base = json.dumps(rand_json(rng, 3))
